@@ -7,6 +7,7 @@ lists, identifier 0, server-to-client packet types, oversized payload), sent bef
 session, whole or split, followed by a connection close; after EVERY hostile stream a witness pair does a publish/receive
 round trip through the same broker.
 Monitor: the harness process survives, the witness message arrives, the witnesses are never disconnected."""
+from checks.brokerlib import canon_async_acks as brokerlib_canon
 from checklib import Suite, Check
 from checks import wirelib
 from checks.brokerlib import parse_out
@@ -24,7 +25,7 @@ def declared_length(b):
 
 
 def main(tier=None):
-    c = Check("C18", ["Wasp.Properties.Facts.Wiring", "Wasp.Properties.C18", "Wasp.Properties.Facts.C18", "Wasp.Properties.C18E2E", "Wasp.Properties.WireRoundTrip"], tier)
+    c = Check("C18", ["Wasp.Properties.Facts.Wiring", "Wasp.Properties.AnswerLost", "Wasp.Properties.C18", "Wasp.Properties.Facts.C18", "Wasp.Properties.C18E2E", "Wasp.Properties.WireRoundTrip"], tier)
     c.build()
     rng = c.rng
     samples = []
@@ -88,7 +89,7 @@ def main(tier=None):
                     out.append((i, "witness-stalled", f"after the preceding hostile stream the witness publish {witness[i]} did not reach the witness subscriber: {line[:200]}"))
         return out
     ops.append("bye")
-    c.run_suite(Suite("hostile-streams-with-witness", "broker", ops, mon, {"cases": cases, "nontrivial": cases}, resets=("reset",), retry_args=["200"]), timeout=3000)
+    c.run_suite(Suite("hostile-streams-with-witness", "broker", ops, mon, {"cases": cases, "nontrivial": cases}, resets=("reset",), retry_args=["200"], canon=brokerlib_canon), timeout=3000)
     samples.append({"suite": "hostile-streams-with-witness", "ops": [o[:100] for o in ops[4:12]]})
     # the decoder model against the real decoder, byte string by byte string (each followed by end of input)
     dec_ops = []
@@ -116,7 +117,9 @@ def main(tier=None):
     scs = brokerlib.corpus(c.rng, ["ids-return-after-recipient-vanished", "setup-workers-survive-panics", "split-length-field-among-many", "fanout-unacked-retransmit", "same-client-id-overlapping-qos2", "suback-unwritable", "connack-unwritable"])
     scs += [brokerlib.gen_abandoned_exchanges(c.rng) for _ in range(3 if c.tier == "quick" else 40)]
     scs += [brokerlib.gen_answer_lost(c.rng) for _ in range(3 if c.tier == "quick" else 40)]
+    scs += [brokerlib.gen_broken_recipient_qos(c.rng) for _ in range(3 if c.tier == "quick" else 40)]
     brokerlib.run_scenarios(c, "abandoned-exchanges-with-witness", scs, samples)
+    brokerlib.add_refused_connect_suite(c, samples)
     c.assumptions += ["the MQTT decoder (module cache) is modelled, not verified", "memory exhaustion and a client that stops READING (writer blocked until its deadline) are outside the model: partial for 'stall'"]
     return c.finish(samples=samples,
                     rule="case = one hostile byte stream (valid packet or structure-aware mutation), before CONNECT or inside a session, whole or "
